@@ -6,6 +6,7 @@
 #[path = "/repo/blots-wasm/src/lib.rs"]
 mod wasm_driver;
 
+mod c02;
 mod c03;
 mod c04;
 mod c07;
@@ -79,6 +80,7 @@ fn main() {
                 .iter()
                 .enumerate()
                 .map(|(idx, c)| match prop {
+                    "c02" => c02::replay(c, &setup, cli.as_deref()),
                     "c03" => c03::replay(c),
                     "c04" => c04::replay(c),
                     "c07" => c07::replay(c, thorough, cli.as_deref(), idx),
@@ -100,6 +102,7 @@ fn main() {
         ("record", prop) => {
             let cli = opt(&args, "--cli");
             let out = match prop {
+                "c02" => c02::record(seed, n, cli.as_deref()),
                 "c03" => c03::record(seed, n),
                 "c04" => c04::record(seed, n),
                 "c07" => c07::record(seed, n, cli.as_deref()),
